@@ -30,7 +30,16 @@
          setupConfigurationComponents), which shuts down every component, started or not;
        * a sharedcomponent wrapper forwards only the first Start and the first Shutdown to the inner
          object.
-   One action per call. *)
+   One action per call.
+
+   FINDING (C10-shared-receiver-early-start).  A receiver shared between signals is ONE component that
+   sends data into the pipelines of all its signals, but the graph has one receiver node per signal and
+   the first node StartAll happens to visit starts the inner object.  With ReceiversLast = FALSE (the
+   pinned tree) TLC finds a behaviour violating SharedStartOrder (inner object started while a
+   consumer of another signal is not started); the real service shows it in about every second
+   lifetime with a shared receiver.  ReceiversLast = TRUE is the model of the delivered repair
+   (fixes/C10-receivers-start-last.patch: receiver nodes are started after all other nodes) and
+   satisfies SharedStartOrder together with all other clauses. *)
 EXTENDS PipelineGraphMC     \* = PipelineGraph + the named universes / connector support table
 
 CONSTANTS ExtIds,      \* extension ids
